@@ -70,4 +70,6 @@ def for_property(ck):
                        "what": "kernel bodies re-translated from /repo's working tree into "
                                "lean/FteikVerif/Generated/K*.lean; the listed gen_* theorems relate "
                                "them to the model the property theorems are about"}
+    import kerneldiff
+    kerneldiff.run(ck, kernels, ck.tier, structure_only=ck.prop in ("C07", "C11"))
     return list(mods), list(thms)
